@@ -68,6 +68,10 @@ DONE = {
   text="Two real live actors are driven through generated schedules of dial decisions, request/reply delivery and loss, and independent success/failure of both ends of each session; the harness owns the network and feeds synthetic results to the real completion handlers. Invariants over the history: one session at a time per pair, exactly one of two back-to-back simultaneous requests allowed, resync dials only after a refused report and every refused report followed up, Idle and probe-able at quiescence, NotFound for a non-syncing document.",
   note="connect_and_sync / handle_connection themselves are replaced by synthetic results (their QUIC behaviour is not explored); handlers are atomic as in the actor loop.",
   technique=PBT + ": schedule exploration of the two-node coordination state machine with history invariants"),
+ "C04": dict(level="exploration",
+  text="2..=5 replicas with skewed clocks go through generated histories of local writes and deletions, arbitrary (lost, duplicated, reordered) deliveries of written entries, reconciliation sessions cut after a generated number of messages and restarts of file-backed replicas; then complete sessions are swept along a generated connected pair set until nothing moves. At every step every stored entry must be byte-identical to a locally written one; at quiescence all replicas must equal the order-free merge of all accepted local writes, within n+2 sweeps.",
+  note="'Eventually' is checked as safety at quiescence of the closing sweeps; gossip is modelled as per-entry delivery through insert_remote_entry; skews within +-290 s.",
+  technique=PBT + ": multi-replica history exploration with convergence-to-merge oracle at quiescence"),
  "C05": dict(level="exploration",
   text="For generated replica states, generated queries over the full product of query options are compared, as exact sequences, with a naive filter/group/sort/skip/take executor over the store's actual contents; point lookups and the two physical access paths are cross-checked.",
   note="Latest-per-key semantics as documented on Query (author filter after grouping); ties between authors at the greatest timestamp are judged by a validity predicate or skipped and counted.",
